@@ -184,6 +184,19 @@ def C03(ctx):
     for p, s in rare:
         for _ in range(2):
             cases.append(op_mk("b", g.key(), g.form(p), g.form(s), gen="searched: SHA-1 with <16 decimals"))
+    # a half of the ICC master key that is a special DES key (weak, semi-weak, all zero / ones, up to parity): the 16
+    # digits of PAN || PSN are solved for by decrypting the special value (kept when every nibble is decimal)
+    nsolved = 0
+    for _ in range(ctx.n(6, 30)):
+        k = g.fresh_key()
+        for x in gens.preimages_of_special_blocks(k, lambda x: all((b >> 4) < 10 and (b & 15) < 10 for b in x), limit=3):
+            d = x.hex()
+            for w in ("a", "b"):
+                cases.append(op_mk(w, k, g.form(d[:14]), g.form(d[14:]), gen="master key half is a special DES key (solved)")); nsolved += 1
+        for x in gens.preimages_of_special_blocks(k, lambda x: all((b >> 4) < 10 and (b & 15) < 10 for b in bytes(255 - c for c in x)), limit=2):
+            d = bytes(255 - c for c in x).hex()                # the second half encrypts NOT Y
+            cases.append(op_mk("a", k, g.form(d[:14]), g.form(d[14:]), gen="master key half is a special DES key (solved)")); nsolved += 1
+    ctx.extra["special_master_key_halves_solved"] = nsolved
     # the far tail of the top-up branch: digests with very few decimal digits (parallel search; larger when a proof
     # obligation or the translation of this code no longer checks, and in the thorough tier)
     per = 4_000_000 if (getattr(ctx, "boost", False) or ctx.thorough) else 120_000
@@ -240,6 +253,16 @@ def C04(ctx):
         k = g.key()
         a = R.choice([R.randbytes(2), b"\x00\xff", b"\xff\x00", b"\x0f\xf0", b"\x00\x00", b"\xff\xff", b"\x55\xaa"])
         cases.append(op_visa_sk(k, a, gen="visa_sk"))
+    # a half of the session key that is a special DES key (weak, semi-weak, all zero / ones, up to parity): the
+    # diversifier is solved for by decrypting the special value
+    nsolved = 0
+    for _ in range(ctx.n(3, 12)):
+        k = g.fresh_key()
+        for third in (0xF0, 0x0F):
+            for x in gens.preimages_of_special_blocks(k, lambda x, third=third: x[2] == third, limit=4):
+                r = x[:2] + bytes([R.randrange(256)]) + x[3:]
+                cases.append(op_common_sk(k, r, gen="session key half is a special DES key (solved)")); nsolved += 1
+    ctx.extra["special_session_key_halves_solved"] = nsolved
     for _ in range(ctx.n(500, 2000)):
         cases.append(op_common_sk(R.choice([g.key(), g.badkey()]), g.sized(8, .6), gen="malformed", proj="class"))
         cases.append(op_visa_sk(R.choice([g.key(), g.badkey()]), g.sized(2, .6), gen="malformed", proj="class"))
